@@ -183,18 +183,22 @@ theorem Good.atPos {α : Type} (bytePos : Option Nat) {c : Pair α} (hc : Good c
     obtain ⟨h1, h2, h3, h4, h5⟩ := h
     exact hc.core _ _ ⟨h1, h2, h3, by simp only; rw [h4, h5], h5⟩
 
-/-- descriptions of the second tier: `A_INT32` leaves and (nested) structures, with the values to encode -/
+/-- descriptions of the second tier: integer VALUE leaves, integer CODED-CONST leaves and (nested) structures,
+    with the values to encode -/
 inductive Tree where
-  | int (o : Obj) (v : IVal)
+  | int (o : Obj) (v : IVal)                 -- VALUE parameter over a simple DOP
+  | const (o : Obj) (v : IVal)               -- CODED-CONST parameter with coded value `v`
   | struct (name : String) (bytePos : Option Nat) (kids : List Tree)
 
 def Tree.name : Tree → String
   | .int o _ => o.name
+  | .const o _ => o.name
   | .struct n _ _ => n
 
 mutual
 def Tree.okAll : Tree → Prop
   | .int o v => o.ok ∧ o.inRange v
+  | .const o v => o.ok ∧ o.inRange v
   | .struct _ _ kids => Trees.okAll kids
 def Trees.okAll : List Tree → Prop
   | [] => True
@@ -205,6 +209,7 @@ mutual
 /-- pure encoder/decoder of a described object -/
 def Tree.pair : Tree → Pair PVal
   | .int o v => (Pair.ofObj o v).map PVal.atom
+  | .const o v => (Pair.ofObj o v).map PVal.atom
   | .struct _ bp kids => ((Trees.pair kids).inOrigin.atPos bp).map PVal.dict
 def Trees.pair : List Tree → Pair (List (String × PVal))
   | [] => Pair.nil []
@@ -214,6 +219,10 @@ end
 mutual
 theorem Tree.good : (t : Tree) → t.okAll → Good t.pair
   | .int o v, h => by
+    simp only [Tree.okAll] at h
+    simp only [Tree.pair]
+    exact (Good.ofObj o h.1 v h.2).map _
+  | .const o v, h => by
     simp only [Tree.okAll] at h
     simp only [Tree.pair]
     exact (Good.ofObj o h.1 v h.2).map _
